@@ -173,7 +173,9 @@ struct InterfaceMethod {
     template <typename Receiver, typename... Passthrough>
     Status<void> Dispatch(Receiver* receiver,
                           Passthrough&&... passthrough) const {
-      return Helper<typename FunctionTraits<Op>::Signature>::Dispatch(
+      // Only the protocol-defined arguments are received from the caller;
+      // leading passthrough arguments are supplied by the dispatcher.
+      return Helper<typename HandlerArgs<Op>::TrimmedSignature>::Dispatch(
           receiver, op, std::forward<Passthrough>(passthrough)...);
     }
   };
@@ -201,9 +203,9 @@ struct InterfaceMethod {
     template <typename Receiver, typename... Passthrough>
     Status<void> Dispatch(Receiver* receiver, Class* instance,
                           Passthrough&&... passthrough) const {
-      return Helper<typename FunctionTraits<Method>::Signature>::Dispatch(
-          receiver, instance, method,
-          std::forward<Passthrough>(passthrough)...);
+      return Helper<typename HandlerArgs<Method>::TrimmedSignature>::
+          DispatchMethod(receiver, instance, method,
+                         std::forward<Passthrough>(passthrough)...);
     }
   };
 
@@ -271,16 +273,17 @@ struct InterfaceMethod {
     // to the receiver.
     template <typename Receiver, typename Class, typename Op,
               typename... Passthrough>
-    static Status<void> Dispatch(Receiver* receiver, Class* instance, Op&& op,
-                                 Passthrough&&... passthrough) {
+    static Status<void> DispatchMethod(Receiver* receiver, Class* instance,
+                                       Op&& op, Passthrough&&... passthrough) {
       ArgsTuple args;
       auto status = receiver->GetArgs(&args);
       if (!status)
         return status;
 
-      Return return_value{Call(instance, std::forward<Op>(op), &args,
-                               std::make_index_sequence<sizeof...(Args)>{},
-                               std::forward<Passthrough>(passthrough)...)};
+      Return return_value{
+          CallMethod(instance, std::forward<Op>(op), &args,
+                     std::make_index_sequence<sizeof...(Args)>{},
+                     std::forward<Passthrough>(passthrough)...)};
 
       return receiver->SendReturn(return_value);
     }
@@ -302,9 +305,9 @@ struct InterfaceMethod {
     // arugments to the given handler op.
     template <typename Class, typename Op, std::size_t... Is,
               typename... Passthrough>
-    static Return Call(Class* instance, Op&& op, ArgsTuple* args,
-                       std::index_sequence<Is...>,
-                       Passthrough&&... passthrough) {
+    static Return CallMethod(Class* instance, Op&& op, ArgsTuple* args,
+                             std::index_sequence<Is...>,
+                             Passthrough&&... passthrough) {
       // Silence compiler warning in case the handler doesn't have arguments.
       (void)args;
 
